@@ -192,6 +192,17 @@ class Server:
         except OSError:
             return ""
 
+    def wait_log(self, needle, timeout=30.0):
+        """readiness barrier that does not touch the server: wait until its log (stderr) contains `needle`"""
+        deadline = time.time() + timeout
+        while time.time() < deadline:
+            if needle in self.stderr_text():
+                return True
+            if not self.alive():
+                return needle in self.stderr_text()
+            time.sleep(0.01)
+        return False
+
     def panicked(self):
         return "panicked" in self.stderr_text()
 
